@@ -175,7 +175,9 @@ PARAM_PROGRAMS = {
     "vars_round": dict(device="mock", vars=[("a", "float", 1), ("b", "float", 1)], concrete_vars=True, prog=[
         ["declare", "g", "rydberg_global"],
         ["add", "g", ["cp", 16, E("round", ["mul", ["var", "a"], 2.6]), E("round2", ["div", ["var", "b"], 3.0]), 0.0]],
-        ["add", "g", ["cp", 16, E("ceil", ["mul", ["var", "a"], 1.3]), E("floor", ["mul", ["var", "b"], 1.7]), 0.5]]]),
+        ["add", "g", ["cp", 16, E("ceil", ["mul", ["var", "a"], 1.3]), E("floor", ["mul", ["var", "b"], 1.7]), 0.5]],
+        ["add", "g", ["cp", 16, E("tanh", ["var", "a"]), E("sub", ["sqrt", ["var", "b"]], ["exp", ["var", "a"]]), 0.25]],
+        ["add", "g", ["cp", 16, E("add", ["sin", ["var", "a"]], 1.0), E("sub", ["cos", ["var", "b"]], ["log", ["var", "a"]]), E("tan", ["var", "b"])]]]),
     # mappable register: "all qubits" of a target-less phase_shift is only known at build time (built with 2 of 3 qubits)
     "mappable_shift_all": dict(device="mock", reg="mappable3", direct_reg="mapped3", qubits={"q0": 1, "q1": 4},
                                qubits_alt={"q0": 2, "q1": 5}, direct_reg_alt="mapped3b", vars=[("a", "float", 1)], prog=[
